@@ -163,14 +163,13 @@ def propsBad : List PropE → Bool
   | [] => false
   | p :: ps => (match p.val with | .bad => true | _ => false) || propsBad ps
 
-/-- * `c.object(s.arguments)` with `s.arguments == nil` (stash.go:259): clone.go:92 dereferences
-      `in.objectClass` of a nil `*object`.
-    * an object whose `objectClass` is nil (the zero `object{}`): `in.objectClass.clone` is a nil
+/-- * an object whose `objectClass` is nil (the zero `object{}`): `in.objectClass.clone` is a nil
       dereference.
-    * a property whose value is neither `Value` nor `propertyGetSet`: clone.go:160. -/
+    * a property whose value is neither `Value` nor `propertyGetSet`: clone.go:160.
+    (A function stash without an arguments object – a parameter named `arguments` – is fine:
+    stash.go:259 guards the nil.) -/
 def Node.panics : Node → Bool
   | .obj o => o.klass == "nil" || propsBad o.props
-  | .fn _ _ _ none _ => true
   | _ => false
 
 /-! ### the cloner -/
@@ -240,10 +239,6 @@ structure Roots where
 /-- index of `ObjectPrototype` in `rt.global` (runtime.go:20: 17 constructors/namespaces first) -/
 def objectPrototypeIx : Nat := 17
 
-def findProp (name : String) : List PropE → Option PropE
-  | [] => none
-  | p :: ps => if p.name = name then some p else findProp name ps
-
 def setProto (p : Option Addr) : Node → Node
   | .obj o => .obj { o with proto := p }
   | n => n
@@ -275,18 +270,15 @@ def cloneRuntime (r : Nat) (h : Heap) (base : Addr) (fuel : Nat) (roots : Roots)
     match forRefs (cloneRef r h fuel) roots.globals st2 with
     | .panic => .panic | .fuel => .fuel
     | .ok st3 =>
-      -- clone.go:74  out.eval = out.globalObject.property["eval"].value.(Value).value.(*object)
-      match look g' st3.out with
-      | some (.obj go) =>
-        match findProp "eval" go.props with
-        | some { val := .data (.ref e), .. } =>
-          -- clone.go:75  out.globalObject.prototype = out.global.ObjectPrototype
-          let op' := (roots.globals.map st3.at)[objectPrototypeIx]?
-          .ok { roots := { globalObject := g', globals := roots.globals.map st3.at, eval := e, globalStash := gs' }
-                out := updateAt g' (setProto op') st3.out
-                memo := st3.memo
-                next := st3.next }
-        | _ => .panic          -- missing / accessor / non-object `eval`: failed type assertion
-      | _ => .panic
+      -- clone.go:74  out.eval = c.object(rt.eval)
+      match cloneRef r h fuel roots.eval st3 with
+      | .panic => .panic | .fuel => .fuel
+      | .ok st4 =>
+        -- clone.go:75  out.globalObject.prototype = out.global.ObjectPrototype
+        let gl' := roots.globals.map st4.at
+        .ok { roots := { globalObject := g', globals := gl', eval := st4.at roots.eval, globalStash := gs' }
+              out := updateAt g' (setProto gl'[objectPrototypeIx]?) st4.out
+              memo := st4.memo
+              next := st4.next }
 
 end OttoVerif.C17
